@@ -116,7 +116,7 @@ def body_topology(ctx, sizes, with_edges):
 ENCODINGS = [dict(start_index=s, fill=f, transposed=t) for s in (0, 1) for f in ('nan', 'attr') for t in (False, True)]
 
 
-def body_encoding(ctx, mesh, supply, coords_as_coords, edge_order):
+def body_encoding(ctx, mesh, supply, coords_as_coords, edge_order, two_name='Two'):
     """The same mesh in every file encoding gives the same normalised tables; supplied tables are used verbatim."""
     from emsarray.conventions.ugrid import Mesh2DTopology, UGrid
     nodes, faces = builders.MESHES[mesh]
@@ -139,6 +139,14 @@ def body_encoding(ctx, mesh, supply, coords_as_coords, edge_order):
     ds = builders.ugrid(mesh, supply=supply, coords_as_coords=coords_as_coords, edge_order=(order if supply else None),
                         face_xy=face_xy, with_edges=True, **enc)
     base = builders.ugrid(mesh, fill='nan', with_edges=True)
+    if two_name != 'Two':
+        # UGRID does not name the size-2 dimension of the edge tables; here it is called something else and
+        # another dimension of length two (two time steps) comes first in the dataset
+        import xarray as _xr
+        if 'Two' in ds.dims:
+            ds = ds.rename({'Two': two_name})
+        lead = _xr.Dataset({'tracer': (('time', 'nface'), numpy.zeros((2, len(faces))))})
+        ds = lead.merge(ds).assign_attrs(ds.attrs)
     topo, ref = Mesh2DTopology(ds), Mesh2DTopology(base)
     ctx.check(rows(topo.face_node_array) == [list(f) for f in faces], 'face-node table normalised to zero-based, face dimension first, fill masked')
     ctx.check(topo.face_node_array.dtype.kind == 'i', 'normalised table has an integer type')
@@ -189,6 +197,10 @@ def cases(tier):
     if not q:
         supplies += [('face_face',), ('edge_node', 'face_face'), ('edge_node', 'edge_face')]
     meshes = ['tqp', 'qqq', 'tq'] if q else ['tqp', 'qqq', 'tq', 'fan', 'block']
+    for mesh in meshes[:2]:
+        for supply in (('edge_node',), ('edge_node', 'face_edge', 'edge_face', 'face_face')):
+            yield Case(f'encoding:{mesh}:{"+".join(supply)}:coords0:reversed:two=nv', body_encoding,
+                       dict(mesh=mesh, supply=supply, coords_as_coords=False, edge_order='reversed', two_name='nv'), max_paths=200)
     for mesh in meshes:
         for supply in supplies:
             if ({'face_edge', 'edge_face'} & set(supply)) and 'edge_node' not in supply:
